@@ -282,13 +282,10 @@ def source_index(v, evs):
     e = v.expr()
     best = None
     for i, ev in enumerate(evs):
-        # result symbol of call #i is named `<callee>(args)#i`
-        pass
-    import re
-    m = re.findall(r"next_element\([^()]*\)(?:#(\d+))?", e)
-    if m:
-        return int(m[-1]) if m[-1] else 0
-    return None
+        r = ev[5].e if len(ev) > 5 else None
+        if r and r in e and (best is None or len(r) > len(evs[best][5].e)):
+            best = i
+    return best
 
 
 def rule_extensions_agree(ctx):
@@ -353,8 +350,9 @@ def rule_extensions_agree(ctx):
         matched = [int(x) for (x, y), r in lf.rel.items() if r == "=" and x.isdigit() and "next_element" in y] + \
                   [int(y) for (x, y), r in lf.rel.items() if r == "=" and y.isdigit() and "next_element" in x]
         # the first matched constant is the version check, the variant code is compared on element #1
+        code_sym = evs[1][5].e if len(evs) > 1 and len(evs[1]) > 5 else "<none>"
         code_m = [int(x if x.isdigit() else y) for (x, y), r in lf.rel.items()
-                  if r == "=" and (x.isdigit() or y.isdigit()) and "#1" in (x + y)]
+                  if r == "=" and (x.isdigit() or y.isdigit()) and (code_sym in x or code_sym in y)]
         w = writer.get(vname)
         seen.add(vname)
         ctx.ob("C02.3", "reader/writer agree:%s" % vname,
